@@ -103,8 +103,8 @@ func ConcatItems[T any](items []T) (T, error) {
 		}
 	}
 
-	// handle map kind
-	if typ.Kind() == reflect.Map {
+	// handle map kind; a function registered for a (named) map type goes first, as for every other kind
+	if typ.Kind() == reflect.Map && GetConcatFunc(typ) == nil {
 		cv, err = concatMaps(v)
 	} else {
 		cv, err = concatSliceValue(v)
@@ -180,7 +180,7 @@ func concatMaps(ms reflect.Value) (reflect.Value, error) {
 
 		var cv reflect.Value
 
-		if v.Type().Elem().Kind() == reflect.Map {
+		if v.Type().Elem().Kind() == reflect.Map && GetConcatFunc(v.Type().Elem()) == nil {
 			cv, err = concatMaps(v)
 		} else {
 			cv, err = concatSliceValue(v)
